@@ -793,6 +793,11 @@ fn main() {
             "WP" => walk::walk_programs_cmd(&args),
             "WR" => walk::walk_real_cmd(&args),
             "NP" => walk::negation_programs_cmd(&args),
+            // NV <op> <lhs> <rhs>: one operation of the variance algebra (crate hook), values in canonical text form
+            "NV" => match args.as_slice() {
+                [op, l, r] => wax::verif_variance_op(op, l, r).unwrap_or_else(|| "bad-args".into()),
+                _ => "bad-args".into(),
+            },
             _ => "bad-op".into(),
         }))
         .unwrap_or_else(|p| format!("panic:{}", panic_site(&p)));
